@@ -276,14 +276,18 @@ static void isap_hist_##P(rng_t *r, uint64_t idx)                               
         rng_bytes(r, n, 16); rng_bytes(r, ad, adlen); rng_bytes(r, m, mlen);                          \
         if (i == at) {                                                                                \
             P##_isap_aead_save_key(pk, saved);                                                        \
-            vf_eq("C06", "isap:" #P ":saved-key-bytes", "saved key vs reference K_E||K_A", saved, expk, 80, "\"key\":\"%s\"", vf_h(k, KL)); \
-            if (memcmp(snap, pk, sizeof(KT)) != 0) vf_violation("C06", "isap:" #P ":key-modified-by-save", "\"i\":%u", i); \
+            /* the saved format and what save_key does to the object are not constrained by C06 (save_key takes a    \
+               non-const key): only behaviour of the loaded key and "not modified by encrypting or decrypting" are;  \
+               the saved bytes still go into the transcript for the cross-build comparison of C09 */                   \
+            if (memcmp(saved, expk, 80) == 0) vf_count("isap_saved_key_equals_KE_KA", 1);                              \
             P##_isap_aead_load_key(pk2, saved);                                                       \
             P##_isap_aead_save_key(pk2, saved2);                                                      \
             vf_eq("C06", "isap:" #P ":resave-differs", "re-saved key", saved2, saved, 80, "\"i\":%u", i); \
             vf_out(saved, 80);                                                                        \
         }                                                                                             \
+        memcpy(snap, pk, sizeof(KT));                                                                 \
         P##_isap_aead_encrypt(c, &clen, m, mlen, ad, adlen, n, pk);                                   \
+        if (memcmp(snap, pk, sizeof(KT)) != 0) vf_violation("C06", "isap:" #P ":key-modified-in-history", "\"packet\":%u,\"op\":\"encrypt\"", i); \
         ref_isap_encrypt(V, exp, m, mlen, ad, adlen, n, k);                                           \
         vf_eq("C06", "isap:" #P ":history-ciphertext", "ciphertext of packet in a history", c, exp, mlen + 16, "\"packet\":%u,\"packets\":%u", i, npk); \
         vf_out(c, mlen + 16);                                                                         \
@@ -293,7 +297,7 @@ static void isap_hist_##P(rng_t *r, uint64_t idx)                               
         }                                                                                             \
         if (P##_isap_aead_decrypt(m2, &mlen2, c, mlen + 16, ad, adlen, n, i >= at && (i & 1) ? pk2 : pk) < 0 || mlen2 != mlen || (mlen && memcmp(m2, m, mlen))) \
             vf_violation("C06", "isap:" #P ":history-decrypt", "\"packet\":%u,\"mlen\":%zu", i, mlen); \
-        if (memcmp(snap, pk, sizeof(KT)) != 0) { vf_violation("C06", "isap:" #P ":key-modified-in-history", "\"packet\":%u", i); memcpy(snap, pk, sizeof(KT)); } \
+        if (memcmp(snap, pk, sizeof(KT)) != 0) vf_violation("C06", "isap:" #P ":key-modified-in-history", "\"packet\":%u,\"op\":\"decrypt\"", i); \
         free(exp); gfree(ad); gfree(m); gfree(c); gfree(c2); gfree(m2);                               \
         vf_count("isap_history_packets", 1);                                                          \
     }                                                                                                 \
